@@ -640,3 +640,100 @@ func init() {
 			return obs
 		}})
 }
+
+// SCHEMA.lookup-error-refused — C14 ("a malformed schema is refused when it is
+// built, with bad-arguments; it never silently approves a value"): a type slot
+// that names an unbound symbol is malformed.  The lookup's error must leave the
+// constructor as an error.  Turning it into a constraint that is resolved
+// later moves the refusal to validation time, where the combinators read it
+// as data: s:when skips the clause, s:not approves every value.
+func init() {
+	register(&Rule{ID: "SCHEMA.lookup-error-refused", Floor: 1,
+		Doc: "in libschema, a branch taken because a symbol lookup failed (`x := env.Get(sym)` … `x.Type == lisp.LError`) returns an error — x itself or an Errorf / ErrorConditionf construction — never a validator or another non-error value; and where the lookup result is not tested it flows on under the same variable so the type dispatch that follows refuses it",
+		Run: func(c *Ctx) []Obligation {
+			const rid = "SCHEMA.lookup-error-refused"
+			get := c.LookupMethod("lisp.LEnv.Get")
+			if get == nil {
+				return []Obligation{anchorMissing(rid, "LEnv.Get")}
+			}
+			var obs []Obligation
+			for _, u := range c.Funcs(func(p string) bool { return rel(p) == "lisp/lisplib/libschema" }) {
+				if u.Decl == nil || u.Decl.Body == nil {
+					continue
+				}
+				info := u.Pkg.TypesInfo
+				// locals assigned from env.Get(...)
+				looked := map[types.Object]bool{}
+				ast.Inspect(u.Decl.Body, func(n ast.Node) bool {
+					as, ok := n.(*ast.AssignStmt)
+					if !ok || len(as.Lhs) != len(as.Rhs) {
+						return true
+					}
+					for i, r := range as.Rhs {
+						if ce, ok := ast.Unparen(r).(*ast.CallExpr); ok && originOf(Callee(info, ce)) == get {
+							if o := identObj(info, as.Lhs[i]); o != nil {
+								looked[o] = true
+							}
+						}
+					}
+					return true
+				})
+				if len(looked) == 0 {
+					continue
+				}
+				ord := &ordinal{}
+				ast.Inspect(u.Decl.Body, func(n ast.Node) bool {
+					is, ok := n.(*ast.IfStmt)
+					if !ok {
+						return true
+					}
+					// condition implies X.Type == LError for a looked-up X
+					var X types.Object
+					for _, a := range impliedAtoms(is.Cond, true) {
+						be, ok := ast.Unparen(a.E).(*ast.BinaryExpr)
+						if !ok || !a.Positive || be.Op != token.EQL {
+							continue
+						}
+						for _, pair := range [][2]ast.Expr{{be.X, be.Y}, {be.Y, be.X}} {
+							se, ok := ast.Unparen(pair[0]).(*ast.SelectorExpr)
+							if !ok || se.Sel.Name != "Type" || !looked[identObj(info, se.X)] {
+								continue
+							}
+							if o := identObjOrSel(info, pair[1]); o != nil && o.Name() == "LError" {
+								X = identObj(info, se.X)
+							}
+						}
+					}
+					if X == nil {
+						return true
+					}
+					for _, st := range is.Body.List {
+						rs, ok := st.(*ast.ReturnStmt)
+						if !ok || len(rs.Results) == 0 {
+							continue
+						}
+						construct := ord.next("return on failed lookup of " + X.Name())
+						r := ast.Unparen(rs.Results[0])
+						okRet := identObj(info, r) == X
+						if ce, isCall := r.(*ast.CallExpr); isCall {
+							if f := Callee(info, ce); f != nil && (strings.HasSuffix(f.Name(), "Errorf") || strings.HasSuffix(f.Name(), "Conditionf") || f.Name() == "Error") {
+								okRet = true
+							}
+						}
+						if okRet {
+							obs = append(obs, mkOb(c, rid, u, construct, rs, Proved, "an error leaves the constructor", true))
+						} else {
+							obs = append(obs, mkOb(c, rid, u, construct, rs, Violated, "a failed symbol lookup is answered with `"+types.ExprString(r)+"`, not with an error: a schema naming an unbound type is accepted when it is built, and at validation time the failure is data to the combinators — an s:when guard on it skips its clause, s:not over it approves every value", true))
+						}
+					}
+					return true
+				})
+				if len(ord.seen) == 0 {
+					// untested lookup results: recorded so that the rule has a site (the dispatch that
+					// follows is SCHEMA.build-errors' business)
+					obs = append(obs, mkOb(c, rid, u, "lookup result flows on untested", u.Decl, Proved, "no branch converts a failed lookup into a non-error value", false))
+				}
+			}
+			return obs
+		}})
+}
